@@ -6,11 +6,13 @@ import MakoModel.Props.C01
 #print axioms MakoModel.C01.lex_never_assertion
 #print axioms MakoModel.C01.lex_accounts_with_skipped
 #print axioms MakoModel.C01.lex_accounts_fixed
-#print axioms MakoModel.C01.lex_accounts_partial
-#print axioms MakoModel.C01.lex_accounts_current
-#print axioms MakoModel.C01.lex_accounts_counterexample
-#print axioms MakoModel.C01.lex_accounts_counterexample_cr
+#print axioms MakoModel.C01.lex_accounts
+#print axioms MakoModel.C01.current_is_fixed
+#print axioms MakoModel.C01.history_as_found_drops_lt
+#print axioms MakoModel.C01.history_as_found_drops_percent
+#print axioms MakoModel.C01.repaired_witnesses
 #print axioms MakoModel.C01.text_fidelity
 #print axioms MakoModel.C01.plain_is_verbatim
 #print axioms MakoModel.C01.plain_empty
 #print axioms MakoModel.C01.positions_correct
+#print axioms MakoModel.C01.tokens_before_error_tile_a_prefix
